@@ -297,6 +297,9 @@ fn build_context_evaluator(scope: &Scope, context: &Context) -> Result<Evaluator
   }
   scope.pop();
   Ok(Box::new(move |scope: &Scope| {
+    // the entries of this context are visible to its following entries only: they are placed
+    // in a context of their own, which is removed from the scope when the evaluation is done
+    scope.push(FeelContext::default());
     let mut evaluated_context = FeelContext::default();
     for (opt_name, evaluator) in &entry_evaluators {
       match opt_name {
@@ -306,10 +309,13 @@ fn build_context_evaluator(scope: &Scope, context: &Context) -> Result<Evaluator
           evaluated_context.set_entry(name, value);
         }
         None => {
-          return evaluator(scope);
+          let result = evaluator(scope);
+          scope.pop();
+          return result;
         }
       }
     }
+    scope.pop();
     Value::Context(evaluated_context)
   }))
 }
